@@ -187,6 +187,9 @@ def find_peaks(data, threshold, *, box_size=3, footprint=None, mask=None,
     # Exclude peaks below the threshold
     peak_goodmask = np.logical_and(peak_goodmask, (data > threshold))
 
+    # NaN pixels (replaced by the data minimum above) are never peaks
+    peak_goodmask = np.logical_and(peak_goodmask, ~nan_mask)
+
     y_peaks, x_peaks = peak_goodmask.nonzero()
     peak_values = data[y_peaks, x_peaks]
 
